@@ -236,36 +236,45 @@ def r12_2(ctx):
 
 
 def r12_3(ctx):
-    """R12.3 aliases share the trigger: the touch of an option's dependency file is followed, in the same block, by a touch
-    for every deprecated alias of that option (guarded only by the presence of rename tables)."""
+    """R12.3 aliases share the trigger: wherever the dependency file of an option is touched - for a changed option in
+    sync_deps(), for a vanished one in _load_old_vals() (the header loses `#define CONFIG_OLD CONFIG_NEW` together with
+    CONFIG_NEW: fixed defect 5.60) - the touch is followed, under no further condition than the presence of rename tables,
+    by a touch for every deprecated alias of that option."""
     repo = ctx.repo
-    f = repo.func(f"{CORE}:Kconfig.sync_deps")
-    res = Resolver(f.node)
-    fl = Flow(f.node, resolver=res).run()
-    loop = [n for n in f.node.body if isinstance(n, ast.For) and "unique_defined_syms" in ast.unparse(n.iter)][0]
+    sd = repo.func(f"{CORE}:Kconfig.sync_deps")
+    lo = repo.func(f"{CORE}:Kconfig._load_old_vals")
+    ctx.analysed(sd.qual, lo.qual)
+    loop = [n for n in sd.node.body if isinstance(n, ast.For) and "unique_defined_syms" in ast.unparse(n.iter)][0]
     sym = ast.unparse(loop.target)
-    main = [c for c in _calls_in(loop, "_touch_dep_file") if ast.unparse(c.args[1]) == f"{sym}.name"]
-    alias_loops = [n for n in ast.walk(loop) if isinstance(n, ast.For) and f"get_deprecated_option({sym}.name)" in ast.unparse(n.iter)]
-    construct = "Kconfig.sync_deps/every alias of a touched option is touched too"
-    if not main or not alias_loops:
-        ctx.bad(construct, "the alias loop after the touch is missing", f.loc(loop))
-        return
-    al = alias_loops[0]
-    at = [c for c in _calls_in(al, "_touch_dep_file") if ast.unparse(c.args[1]) == ast.unparse(al.target)]
-    g_main = fl.guards_at(main[0]) or set()
-    g_alias = fl.guards_at(at[0]) if at else None
-    msgs = []
-    if not at:
-        msgs.append("the alias loop does not touch the alias")
-    else:
-        extra = sorted(g for g in (g_alias - g_main) if g != ("self._deprecated_options", True))
-        if extra:
-            msgs.append(f"alias touch additionally guarded by {extra}")
-        if any(isinstance(x, (ast.Break, ast.Continue)) for x in ast.walk(al)):
-            msgs.append("the alias loop can stop early")
-        if main[0].lineno > al.lineno:
-            msgs.append("alias touches precede the option's own touch")
-    (ctx.bad(construct, "; ".join(msgs), f.loc(al)) if msgs else ctx.ok(construct, f.loc(al)))
+    lo_touch = [c for c in _calls_in(lo.node, "_touch_dep_file") if len(c.args) > 1 and isinstance(c.args[1], ast.Name)
+                and not any(isinstance(p_, ast.For) and "get_deprecated_option" in ast.unparse(p_.iter) for p_ in _anc(repo, c))]
+    if not lo_touch:
+        raise AnchorError("_load_old_vals: the touch of a vanished name was not found")
+    for f, scope, name_expr, label in ((sd, loop, f"{sym}.name", "Kconfig.sync_deps/every alias of a touched option is touched too"),
+                                       (lo, lo.node, ast.unparse(lo_touch[0].args[1]), "Kconfig._load_old_vals/every alias of a vanished option is touched too")):
+        fl = Flow(f.node, resolver=Resolver(f.node)).run()
+        main = [c for c in _calls_in(scope, "_touch_dep_file") if len(c.args) > 1 and ast.unparse(c.args[1]) == name_expr]
+        alias_loops = [n for n in ast.walk(scope) if isinstance(n, ast.For) and f"get_deprecated_option({name_expr})" in ast.unparse(n.iter)]
+        construct = label
+        if not main or not alias_loops:
+            ctx.bad(construct, "the alias loop after the touch is missing: the file of an alias whose `#define` changed or vanished with the option is never touched", f.loc(main[0] if main else scope))
+            continue
+        al = alias_loops[0]
+        at = [c for c in _calls_in(al, "_touch_dep_file") if ast.unparse(c.args[1]) == ast.unparse(al.target)]
+        g_main = fl.guards_at(main[0]) or set()
+        g_alias = fl.guards_at(at[0]) if at else None
+        msgs = []
+        if not at:
+            msgs.append("the alias loop does not touch the alias")
+        else:
+            extra = sorted(g for g in (g_alias - g_main) if g != ("self._deprecated_options", True))
+            if extra:
+                msgs.append(f"alias touch additionally guarded by {extra}")
+            if any(isinstance(x, (ast.Break, ast.Continue)) for x in ast.walk(al)):
+                msgs.append("the alias loop can stop early")
+            if main[0].lineno > al.lineno:
+                msgs.append("alias touches precede the option's own touch")
+        (ctx.bad(construct, "; ".join(msgs), f.loc(al)) if msgs else ctx.ok(construct, f.loc(al)))
 
 
 def _unescapes_matched_string(repo, lo) -> bool:
@@ -597,4 +606,4 @@ def r12_12(ctx):
 
 
 def rules():
-    return [("R12.12", r12_12, 1), ("R12.11", r12_11, 2), ("R12.10", r12_10, 1), ("R12.9", r12_9, 1), ("R12.8", r12_8, 1), ("R12.7", r12_7, 2), ("R12.1", r12_1, 6), ("R12.2", r12_2, 2), ("R12.3", r12_3, 1), ("R12.4", r12_4, 6), ("R12.5", r12_5, 4), ("R12.6", r12_6, 4)]
+    return [("R12.12", r12_12, 1), ("R12.11", r12_11, 2), ("R12.10", r12_10, 1), ("R12.9", r12_9, 1), ("R12.8", r12_8, 1), ("R12.7", r12_7, 2), ("R12.1", r12_1, 6), ("R12.2", r12_2, 2), ("R12.3", r12_3, 2), ("R12.4", r12_4, 6), ("R12.5", r12_5, 4), ("R12.6", r12_6, 4)]
